@@ -92,8 +92,13 @@ func agentCase(h *verifx.H, ci int, r *verifx.Rng) {
 		if !created {
 			return
 		}
-		count := math.Ldexp(1, nextPow) // distinct powers of two: counter*SF is exact, SF = counter/count
-		nextPow++
+		// powers of two: counter*SF is exact, SF = counter/count. Half of the rows hold exactly one event (the counter_eq_1
+		// transfer shortcut must look at the SCALED counter), the others have distinct counts (distinct whale weights)
+		count := 1.0
+		if r.Chance(1, 2) {
+			count = math.Ldexp(1, nextPow)
+			nextPow++
+		}
 		item.Tail.AddCounter(aux, count)
 		if r.Chance(1, 6) { // not a single value counter
 			item.Tail.HLL.Insert(r.U64())
@@ -292,6 +297,16 @@ func agentCase(h *verifx.H, ci int, r *verifx.Rng) {
 		flagged := rw.bypass || (rw.noSample && modeAgent && !disableNoSample)
 		if flagged && !(rw.sent && rw.counter == rw.count) {
 			h.Viol("agent-nosample-row-not-whole", "sampleBucket: row %d of NoSampleAgent metric (own %d, accounted %d) sent=%v counter=%v count=%v", rw.id, rw.ownMetric, rw.account, rw.sent, rw.counter, rw.count)
+		}
+		if rw.sent && rw.counter == rw.count && !flagged {
+			// a row sent with factor 1 inside a metric that lost rows is a whale: no row of that metric that was sampled or
+			// dropped has a larger whale weight (otherwise the row's factor was lost on the way into SourceBucket3)
+			for _, o := range rows {
+				if o != rw && !o.bypass && o.account == rw.account && !(o.sent && o.counter == o.count) && o.whale > rw.whale {
+					h.Viol("agent-light-row-sent-with-factor-one", "sampleBucket: row %d (count %v, whale weight %v) of metric %d sent with factor 1 although the heavier row %d (whale weight %v) was sampled", rw.id, rw.count, rw.whale, rw.account, o.id, o.whale)
+					break
+				}
+			}
 		}
 		if rw.sent && rw.counter < rw.count {
 			h.Viol("agent-row-factor-below-one", "sampleBucket: row %d sent with counter %v < count %v", rw.id, rw.counter, rw.count)
